@@ -164,6 +164,40 @@ theorem enc_stack_capacity :
     encDropAmounts.all (fun d => d % encStateSizeof == 0 && d > 0) = true := by
   decide +kernel
 
+
+/-! ### memory handed to the runtime as pointer-typed -/
+
+/-- THE EXPECTATION TABLE (hand-written; it is the tie): every `mallocgc` call that does not pass the
+    constant `needzero = true`, with the reason it may.  Un-zeroed memory of a pointer-containing type
+    is visible to the collector (and, for slots the code then skips, to the caller) with whatever the
+    previous owner left there.  A new or changed call site breaks `raw_allocations_zeroed_or_listed`. -/
+def allocExpectations : List (String × String × String × String) := [
+  ("internal/decoder/jitdec/assembler_regabi_amd64.go", "malloc_AX", "_T_byte", "pointer-free: byte buffer for unquoted strings"),
+  ("internal/decoder/jitdec/generic_regabi_amd64.go", "compile", "_T_byte", "pointer-free: byte buffer for unquoted strings"),
+  ("internal/decoder/optdec/native.go", "parse", "nodeType", "pointer-free: node{typ, val uint64}"),
+  ("internal/rt/fastconv.go", "Conv", "Uint64Type", "pointer-free: one uint64"),
+  ("loader/internal/rt/stackmap.go", "Build", "byteType", "pointer-free: bitmap bytes, header and bits written before use")]
+
+/-- type expressions known to denote pointer-free types -/
+def pointerFreeTypeExprs : List String := ["_T_byte", "byteType", "nodeType", "Uint64Type"]
+
+/-- every raw allocation either asks the runtime for zeroed memory or is one of the listed
+    allocations of a pointer-free type -/
+theorem raw_allocations_zeroed_or_listed :
+    ((rawAllocs.filter (fun a => !a.zeroed)).map (fun a => (a.file, a.fn, a.typ))) =
+      allocExpectations.map (fun e => (e.1, e.2.1, e.2.2.1)) ∧
+    allocExpectations.all (fun e => pointerFreeTypeExprs.contains e.2.2.1) = true ∧
+    rawAllocs.length > 0 := by
+  decide +kernel
+
+/-- the address of a local is hidden from escape analysis (`rt.NoEscape(&x)`) only as the argument of
+    `EncodeTypedPointer` under `if vt.Indirect()`: the callee then loads the value pointer at once and
+    never stores the address.  For a direct (pointer-shaped) type the callee keeps the address in the
+    heap-allocated state stack, where a stack move would leave it stale. -/
+theorem noescape_of_locals_only_for_indirect_types :
+    noEscapeSites.all (fun s => s.callee == "EncodeTypedPointer" && s.guard == "then:vt.Indirect()") = true := by
+  decide +kernel
+
 /-! ## non-vacuity -/
 
 -- a 3-byte SUBQ, a 20-byte body in two instructions and a label, ADDQ, RET, 9 bytes of tail
@@ -180,5 +214,9 @@ example : ({ encCode with spWriters := ("x", "SUBQ", 8) :: encCode.spWriters }).
 example : ({ encCode with pushPops := [("x", "PUSHQ")] }).ok encLoadFrameSize = false := by decide +kernel
 example : encCode.ok (encLoadFrameSize + 8) = false := by decide +kernel
 example : encStateAccess.length > 0 ∧ encStateLayout.length = 4 := by decide
+
+-- the allocation check rejects an un-zeroed pointerful arena
+example : (((⟨"internal/rt/pool.go", "NewPool", "go", "typ", "false"⟩ :: rawAllocs).filter (fun a => !a.zeroed)).map
+    (fun a => (a.file, a.fn, a.typ))) ≠ allocExpectations.map (fun e => (e.1, e.2.1, e.2.2.1)) := by decide +kernel
 
 end SonicSpec.Props.C10Code
